@@ -313,3 +313,35 @@ macro_rules! circumcenter_translation {
 
 circumcenter_translation!(c18_circumcenter_translation_2d_k30, 30);
 circumcenter_translation!(c18_circumcenter_translation_2d_k44, 44);
+
+/// Same claim on a skew frame (three fixed vertices in general position, whose Gram matrix
+/// eliminates with non-dyadic multipliers such as 1/3, 1/5): the rounding residue of an
+/// exactly singular elimination is then non-zero, which the unit frame never produces.
+harness! {
+    // bound: simplex_volume D=4, vertices 0..3 fixed at (2,0,-1,1), (-2,1,2,0), (3,3,1,3), (3,-3,3,1), vertex 4 every integer point of [-4,4]^4 on their hyperplane (EXACTLY degenerate): must be Err
+    #[kani::unwind(7)]
+    fn c18_volume_4d_degenerate_g4_skew4() {
+        let frame: [[i32; 4]; 4] = [[2, 0, -1, 1], [-2, 1, 2, 0], [3, 3, 1, 3], [3, -3, 3, 1]];
+        let mut ip = [[0_i32; 4]; 5];
+        let mut pts = [Point::new([0.0, 0.0, 0.0, 0.0]); 5];
+        let mut i = 0;
+        while i < 5 {
+            let c: [i32; 4] = if i < 4 { frame[i] } else { [any_grid(4), any_grid(4), any_grid(4), any_grid(4)] };
+            ip[i] = c;
+            pts[i] = Point::new([f64::from(c[0]), f64::from(c[1]), f64::from(c[2]), f64::from(c[3])]);
+            i += 1;
+        }
+        let det = det5([
+            [ip[0][0], ip[0][1], ip[0][2], ip[0][3], 1],
+            [ip[1][0], ip[1][1], ip[1][2], ip[1][3], 1],
+            [ip[2][0], ip[2][1], ip[2][2], ip[2][3], 1],
+            [ip[3][0], ip[3][1], ip[3][2], ip[3][3], 1],
+            [ip[4][0], ip[4][1], ip[4][2], ip[4][3], 1],
+        ]);
+        kani::assume(det == 0);
+        let got = simplex_volume(&pts);
+        assert!(got.is_err(), "a degenerate simplex must be reported as an error, not a finite volume");
+        kani::cover!(det == 0 && ip[4][0] == -3 && ip[4][1] == 4, "a lattice point of the hyperplane away from the fixed vertices reached");
+        core::mem::forget(got);
+    }
+}
